@@ -18,7 +18,7 @@ CHECKS = {
              'with the same run executed serially; an abort family checks the designs other workers finished when one design '
              'propagates an exception; batch histories may continue in a later session that re-opens the store file (designs read back evaluated must not reach the objective in either mode). Sampling of schedules, not proof; interleavings are quantified at objective-call and '
              'SQL-statement granularity (what the property states) and, in a sixth of the runs, at source-line granularity '
-             '(sys.monitoring LINE events inside the library). Found defects F5 and F7 on the pinned tree (fixed in /repo).',
+             '(sys.monitoring LINE events inside the library). A foreign process may hold the database lock while the workers write, the caller may sit inside its own joblib backend context, locks the library creates are simulated (a self-deadlock is a verdict, not a hang). Found defects F5 and F7 on the pinned tree (fixed in /repo).',
         note='joblib replaced by a stub with the same dispatch/memory/exception semantics; pre-emption only at yield '
              'points; busy handler modelled (5 s virtual) over the real libsqlite3; objective failures off.',
         technique=TECH + ': seeded schedule search (random/PCT/rr/starve) + stall and busy-timeout injection, '
@@ -53,7 +53,7 @@ CHECKS['C10'] = dict(
          'a reference dict id -> last synchronised fields, built from the attributes and not through artap\'s own '
          'to_dict, is compared bit-exactly through ProblemViewDataStore and raw row counts after the history and at '
          'seeded intermediate points; a simulated foreign process may hold the database lock across a synchronisation, and the '
-         'file may first hold another problem and be opened with mode="rewrite", may be re-opened by a later session (optionally a new interpreter whose id counter starts again), and a fifth of the histories use the single-connection store (thread_safe=False). Sampling of histories, not proof.',
+         'file may first hold another problem and be opened with mode="rewrite", may be re-opened by a later session (optionally a new interpreter whose id counter starts again), and a fifth of the histories use the single-connection store (thread_safe=False); an id that the library itself hands out twice after a re-opening is a lost row. Sampling of histories, not proof. Found defect F8 on the pinned tree (fixed in /repo).',
     note='single writer (C07 covers concurrent writers); float bounds/costs (O1); NaN not generated; real libsqlite3 on tmpfs.',
     technique=TECH + ': seeded operation histories against the real store, reference-model oracle through a read-mode view')
 CHECKS['C11'] = dict(
@@ -123,7 +123,7 @@ CHECKS['C09'] = dict(
     text='Complete NSGA-II / eps-MOEA / OMOPSO / SMPSO runs over seeded configurations, PRNG seeds, transient-failure plans and '
          'extreme draws; the population ledger is rebuilt from Problem.populations() and the objective call log (budget, tags, '
          'generation sizes, repeats, elitism by textbook dominance, single-objective best) and every eps-MOEA acceptance step is '
-         'judged in-run. A run that raises without five consecutive planned failures is a violation. Sampling.',
+         'judged in-run. A run that raises without five consecutive planned failures is a violation; a sixth of the runs are second runs of an algorithm object whose first run died of five time-outs. Sampling.',
     note='parameters without coarse precision; PRNG extremes only in failure-free runs; PSOGA outside the property.',
     technique=TECH + ': seeded runs x failure plans, ledger oracle rebuilt from the call log')
 CHECKS['C14'] = dict(
